@@ -100,7 +100,10 @@ def bounded_namespaces(tier, seed):
     props = ["user-id", "user_id", "userId", "user-id-2", "UserID", "1st", "class", "_x", "x"]
     params = ["page-size", "page_size", "pageSize"]
     d = C.doc("NS", [C.op("/ns", "get", "getNs", ["ns"], [C.param(p, "query") for p in params], responses={"200": C.resp_json(C.ref("Thing"))}),
-                     C.op("/ns2", "get", "get_ns", ["ns"]), C.op("/ns3", "get", "get-ns", ["ns"])],
+                     C.op("/ns2", "get", "get_ns", ["ns"]), C.op("/ns3", "get", "get-ns", ["ns"]),
+                     # colliding operation ids on operations whose tags are different SPELLINGS of one tag (one client class), and on an untagged one
+                     C.op("/u1", "get", "get-user", ["Users"]), C.op("/u2", "get", "get_user", ["users"]), C.op("/u3", "get", "getUser", ["USERS"]),
+                     C.op("/d1", "get", "list-it", None), C.op("/d2", "get", "list_it", ["Default"])],
               {"Thing": C.obj({p: C.PRIMS["str"] for p in props}, ["user-id-2"]), "thing": C.obj({"a": C.PRIMS["str"]}), "THING": C.obj({"b": C.PRIMS["str"]}),
                "Col": {"type": "string", "enum": ["a-b", "a b", "a_b", "A_B", "1", "-1", ""]}})
     base = None
@@ -134,12 +137,25 @@ def bounded_namespaces(tier, seed):
                 args = [a.arg for a in fn.args.args[1:]]
                 if len(args) != len(set(args)) or len(args) != len(params):
                     failures.append({"id": "bounded:namespace:parameters", "detail": f"parameters {params} -> arguments {args}", "input": {}})
+        # every operation of the document is a distinct public coroutine of exactly one class per tag client (no `def` replaced by a later one)
+        want = {"users": 3, "default": 2, "ns": 3}
+        edir = os.path.join(base, "nsp", "endpoints")
+        for f in sorted(os.listdir(edir)):
+            if not f.endswith(".py") or f == "__init__.py":
+                continue
+            for cls in [c for c in pkgcheck.parse(os.path.join(edir, f)).body if isinstance(c, ast.ClassDef) and not c.name.endswith("Protocol")]:
+                names = [x.name for x in cls.body if isinstance(x, ast.AsyncFunctionDef) and not x.name.startswith("_")]
+                key = f[:-3]
+                if len(names) != len(set(names)):
+                    failures.append({"id": "bounded:namespace:operations-collapse", "detail": f"{cls.name}: method names {names} (a later definition replaces an earlier one)", "input": {"module": f}})
+                elif key in want and len(set(names)) != want[key]:
+                    failures.append({"id": "bounded:namespace:operations-missing", "detail": f"{cls.name}: {len(set(names))} methods {sorted(set(names))} for {want[key]} operations", "input": {"module": f}})
     finally:
         if base:
             import shutil
             shutil.rmtree(base, ignore_errors=True)
     return {"function": "generate_client on a document with colliding property / parameter / schema / operation names", "backend": "bounded",
-            "bound": "1 hand-built document (9 colliding properties, 3 parameters, 3 schemas, 3 operations)", "evaluations": n, "distinct_nontrivial": 2, "failures": failures}
+            "bound": "1 hand-built document (9 colliding properties, 3 parameters, 3 schemas, 8 operations incl. colliding ids across tag spellings)", "evaluations": n, "distinct_nontrivial": 2, "failures": failures}
 
 
 BOUNDED = [bounded_sanitizers, bounded_namespaces]
